@@ -60,6 +60,7 @@ type Ctx struct {
 
 	ordinal  int64
 	busy     int32 // 1 while a case of this worker is executing
+	beat     int64 // heartbeat: incremented by Count
 	progress *os.File
 	res      Result
 	distinct map[[8]byte]struct{}
@@ -124,6 +125,7 @@ func (c *Ctx) Expired() bool {
 }
 
 func (c *Ctx) Count(k string, n int64) {
+	atomic.AddInt64(&c.beat, 1) // any counted work is a sign of life for the hang watchdog
 	c.mu.Lock()
 	c.res.Counters[k] += n
 	c.mu.Unlock()
@@ -265,13 +267,13 @@ func RunWorker(id, tier string, seed int64, shard, shards int, from int64, deadl
 				return
 			case <-time.After(2 * time.Second):
 			}
-			cur := atomic.LoadInt64(&c.ordinal)
+			cur := atomic.LoadInt64(&c.ordinal) + atomic.LoadInt64(&c.beat)<<20
 			if cur != last {
 				last, since = cur, time.Now()
 				continue
 			}
 			if time.Since(since) > HangLimit && atomic.LoadInt32(&c.busy) == 1 {
-				fmt.Fprintf(os.Stderr, "fatal error: HANG no progress for %v in case ordinal %d\n", HangLimit, cur-1)
+				fmt.Fprintf(os.Stderr, "fatal error: HANG no progress for %v in case ordinal %d\n", HangLimit, atomic.LoadInt64(&c.ordinal)-1)
 				os.Exit(3)
 			}
 		}
